@@ -215,11 +215,12 @@ def save (s : AuthState) : Option Snapshot :=
   if s.dirty then none
   else some { facts := s.world.facts, rules := s.world.rules, checks := s.checks, policies := s.policies }
 
-/-- `LoadPolicies` (authorizer.go:324-401): facts and rules are added to the world,
-checks and policies are replaced. -/
+/-- `LoadPolicies` (authorizer.go `loadPoliciesV2`): facts, rules, checks and policies are
+added to what the authorizer holds; loaded policies come after the ones given before
+(finding D29: checks and policies given before a load used to be dropped). -/
 def load (s : AuthState) (snap : Snapshot) : AuthState :=
   { s with world := { facts := insertAll s.world.facts snap.facts, rules := s.world.rules ++ snap.rules },
-           checks := snap.checks, policies := snap.policies }
+           checks := s.checks ++ snap.checks, policies := s.policies ++ snap.policies }
 
 /-- Operations of an authorizer history (`AUTHSEQ` protocol verb). -/
 inductive AuthOp
